@@ -5,7 +5,7 @@
    The 2^31 - 2^17 bound on each submitted stream is part of the theorem: with a 32-bit
    sequence space and unbounded duplication/delay the statement is false without it. *)
 From Elvis Require Import Model.Base Model.U32 Model.Tcb Model.TcpNet
-  Proofs.TcbSafetyDefs Proofs.TcbSafetyEx Proofs.TcbSafetyThms Proofs.TcbLiveSys Proofs.TcbLiveThm Proofs.TcbLiveEnd.
+  Proofs.TcbSafetyDefs Proofs.TcbSafetyEx Proofs.TcbSafetyThms Proofs.TcbLiveSys Proofs.TcbLiveThm Proofs.TcbLiveEnd Proofs.TcbLiveWinRound.
 Local Open Scope Z_scope.
 
 (* safety: in every reachable state of every closed trace (any interleaving of open / write /
@@ -142,3 +142,30 @@ Theorem C01_liveness_from_start_partial : forall (c : config) (listenB : bool) (
   forall x, sub_of s x = concat (chunks x ws) /\ delivered s (other x) = concat (chunks x ws).
 Proof. exact from_start_explicit. Qed.
 Print Assumptions C01_liveness_from_start_partial.
+
+(* writes of ANY size up to one window (65535 bytes, i.e. up to ceil(65535/MSS) segments per
+   flight): from a quiescent state, any sequence of such writes in either direction, each followed
+   by two loss-free rounds, is delivered exactly once and in order, everything is acknowledged and
+   the system is quiescent again.  (Still partial w.r.t. the full property: writes above the window,
+   lost segments, arbitrary fair schedules - see C01_liveness_full_stmt.) *)
+Theorem C01_liveness_window_partial : forall (c : config) (ws : list (side * list Z)) (s : sys) (a b : Z),
+  Quiescent c s a b ->
+  (forall w, In w ws -> 0 < zlen (snd w) <= 65535) ->
+  let s' := run c s (write_trace ws) in
+  (exists a' b', Quiescent c s' a' b') /\
+  forall x, sub_of s' x = sub_of s x ++ concat (chunks x ws) /\
+            delivered s' (other x) = delivered s (other x) ++ concat (chunks x ws).
+Proof. exact liveness_window_explicit. Qed.
+Print Assumptions C01_liveness_window_partial.
+
+(* the same end to end, for every configuration: open (passive or simultaneous), then any sequence
+   of writes of up to one window *)
+Theorem C01_liveness_from_start_window_partial :
+  forall (c : config) (listenB : bool) (ws : list (side * list Z)),
+  u32 (issA c) -> u32 (issB c) -> 100 <= mtuA c <= 65535 -> 100 <= mtuB c <= 65535 ->
+  (forall w, In w ws -> 0 < zlen (snd w) <= 65535) ->
+  let s := run c (init_sys listenB) (open_trace listenB ++ write_trace ws) in
+  (exists a b, Quiescent c s a b) /\
+  forall x, sub_of s x = concat (chunks x ws) /\ delivered s (other x) = concat (chunks x ws).
+Proof. exact from_start_window_explicit. Qed.
+Print Assumptions C01_liveness_from_start_window_partial.
